@@ -264,7 +264,7 @@ type jscenario struct {
 	Focus    string `json:"focus"`
 }
 
-var topicSets = [][]string{{""}, {"t"}, {"", "t"}, {"u"}, {"t", "v"}}
+var topicSets = [][]string{{""}, {"t"}, {"", "t"}, {"u"}, {"t", "v"}, {}}
 var pubTopicSets = [][]string{{""}, {"t"}, {"", "t"}, {"v"}}
 
 // runScenario runs one seeded scenario; it returns the events, or blocked=true with a goroutine dump.
@@ -276,11 +276,12 @@ func runScenario(seed int64, focus string) (evs []jev, blocked bool, dump string
 	sse.VerifHook = t.hook
 	defer func() { sse.VerifHook = nil }()
 
-	repKinds := []string{"finite-manual", "finite-auto", "valid-manual", "valid-auto", "none", "scripted"}
+	repKinds := []string{"finite-manual", "finite-auto", "valid-manual", "valid-auto", "finite3-manual", "none", "scripted"}
 	var repKind string
+	rcap := 0
 	switch focus {
 	case "resume":
-		repKind = repKinds[rng.Intn(4)]
+		repKind = repKinds[rng.Intn(5)]
 	case "faults":
 		repKind = []string{"scripted", "scripted", "finite-manual", "none"}[rng.Intn(4)]
 	default:
@@ -292,6 +293,10 @@ func runScenario(seed int64, focus string) (evs []jev, blocked bool, dump string
 	switch repKind {
 	case "finite-manual", "finite-auto":
 		fr, _ := sse.NewFiniteReplayer(64, auto)
+		rr = &recRep{t: t, inner: fr}
+	case "finite3-manual": // small enough to wrap and evict within a scenario
+		rcap = 3
+		fr, _ := sse.NewFiniteReplayer(rcap, false)
 		rr = &recRep{t: t, inner: fr}
 	case "valid-manual", "valid-auto":
 		vr, _ := sse.NewValidReplayer(time.Hour, auto)
@@ -317,7 +322,7 @@ func runScenario(seed int64, focus string) (evs []jev, blocked bool, dump string
 		rep = rr
 	}
 	j := &sse.Joe{Replayer: rep}
-	t.evs = append(t.evs, jev{"e": "reset", "seed": seed, "procs": procs, "replayer": repKind, "auto": auto, "focus": focus})
+	t.evs = append(t.evs, jev{"e": "reset", "seed": seed, "procs": procs, "replayer": repKind, "auto": auto, "focus": focus, "cap": rcap})
 
 	mk := func(name string) *sse.Message {
 		m := &sse.Message{}
@@ -351,7 +356,7 @@ func runScenario(seed int64, focus string) (evs []jev, blocked bool, dump string
 		down("k9", context.WithValue(context.Background(), ctxKey{}, "k9"))
 	}
 	// pre-history, so that subscribers can present IDs of buffered events
-	npre := rng.Intn(4)
+	npre := rng.Intn(5)
 	var hist []string
 	for i := 0; i < npre; i++ {
 		name := "h" + strconv.Itoa(i)
@@ -361,6 +366,7 @@ func runScenario(seed int64, focus string) (evs []jev, blocked bool, dump string
 		}
 		hist = append(hist, name)
 		pub(name, pubTopicSets[rng.Intn(3)], prev)
+		_ = i
 	}
 	nsub := 1 + rng.Intn(3)
 	cancels := make([]context.CancelFunc, nsub)
